@@ -195,10 +195,16 @@ def raopTakeover : List Res := raopTakeoverIdx.map Res.takeover
 open PyatvModel.Gen.C18 in
 def airplayTakeover : List Res := airplayTakeoverIdx.map Res.takeover
 
-/-- `FacadeAppleTV.connect`: one protocol after the other in PROTOCOLS order. -/
+/-- `FacadeAppleTV.connect`: one protocol after the other in PROTOCOLS order.  Per protocol
+    four collaborator calls, each a fault point: `await setup_data.connect()` (establishes
+    the connection and its background task), then — synchronous callbacks into protocol
+    supplied objects — `setup_data.interfaces.items()` (registration), iteration of
+    `setup_data.features` (feature mapping) and `setup_data.device_info()`. -/
 def connectBody : List Nat → Prog
   | [] => .skip
-  | p :: ps => .seq .await (.seq (.new (.conn p)) (.seq (.new (.task p)) (connectBody ps)))
+  | p :: ps =>
+    .seq .await (.seq (.new (.conn p)) (.seq (.new (.task p))
+      (.seq .await (.seq .await (.seq .await (connectBody ps))))))
 
 /-- `FacadeAppleTV.close()`: every connected protocol is closed (its tasks cancelled). -/
 def closeAll : List Nat → Prog
